@@ -19,6 +19,8 @@ RULES = {
     "R2": "row assembly: in the text branch of UrwidImageCanvas.content each image row is [left padding, recovered first colour, image cells, "
           "colour reset, right padding, last-row workaround]; the first colour is recovered by scanning backwards from the cut and keeps the cell's "
           "whole colour prefix (up to its LAST 'm'); the untrimmed fast path is taken only when both horizontal trims are zero; a slice [lo:hi] of the held lines takes hi - lo == visible_rows rows",
+    "R4": "_ti_calc_trim is exact (proved per path by linear arithmetic, tiv/linarith.py): under size == pad1 + image + pad2, all >= 0, image >= 1 and a non-empty "
+          "window (trim1 + trim2 <= size - 1) its results are (|window & pad1|, clamp(trim1 - pad1, 0, image), clamp(trim2 - pad2, 0, image), |window & pad2|) on every feasible path",
     "R3": "the canvas describes the render it holds: content() uses the image size recorded when the canvas was rendered (self._ti_image_size), never "
           "the image's current size; its padding split (near = n//2, far = n-near; remainder to the far side) is the one _format_render used",
 }
@@ -173,6 +175,46 @@ def run(ck, m):
             ck.ob("R2", enclosing_stmt(sl), length == want_v, f"`{short(sl, 60)}` takes {_af.show(length)} rows; a region shows {_af.show(want_v)} rows (an end index must be start + count, "
                   "not the count)", stmt=f"content: rows taken by {short(sl, 50)} == visible rows")
 
+    # ---- R4: _ti_calc_trim against its interval specification, path by path --------------------------------------------------------
+    from tiv import linarith as _L
+    tcf = m.get(UW, "UrwidImageCanvas._ti_calc_trim")
+    PN = ["size", "image", "trim1", "pad1", "trim2", "pad2"]
+    try:
+        tpaths = _L.paths(tcf, PN)
+        def _one(src):
+            return _L.spec_cases(src, PN)[0][1]
+        pre = [_one(x_) for x_ in ("pad1", "pad2", "trim1", "trim2", "image - 1", "size - trim1 - trim2 - 1", "size - pad1 - image - pad2", "pad1 + image + pad2 - size")]
+        SPEC = [("new padding on side 1", "max(0, min(pad1, size - trim2) - trim1)"), ("rows/columns cut off the image on side 1", "max(0, min(image, trim1 - pad1))"),
+                ("rows/columns cut off the image on side 2", "max(0, min(image, trim2 - pad2))"), ("new padding on side 2", "max(0, min(pad2, size - trim1) - trim2)")]
+        n_feas = n_proved = 0
+        for cs_, outs_ in tpaths:
+            ck.expect(len(outs_) == 4, f"_ti_calc_trim: a path returns {len(outs_)} values, 4 expected")
+            if len(outs_) != 4:
+                continue
+            C_ = pre + cs_
+            if _L.infeasible(C_):
+                continue
+            n_feas += 1
+            for (what_, spec_), out_ in zip(SPEC, outs_):
+                for sc_, w_ in _L.spec_cases(spec_, PN):
+                    CC_ = C_ + sc_
+                    if _L.infeasible(CC_):
+                        continue
+                    if _L.entails_eq(CC_, out_, w_):
+                        n_proved += 1
+                        continue
+                    wit = _L.witness(CC_, out_, w_, PN)
+                    ck.expect(wit is not None, f"_ti_calc_trim: `{what_}` is neither proved equal to `{spec_}` on a path nor refuted by a small valuation")
+                    if wit is not None:
+                        got_, want_ = _L._eval(out_, wit), _L._eval(w_, wit)
+                        ck.ob("R4", tcf, False, f"_ti_calc_trim: the {what_} is `{_af.show(out_)}` on a path where it must be `{_af.show(w_)}` (= {spec_}): for {wit} it returns {got_}, the region holds {want_} - "
+                              "the trimmed canvas then has a row / column too many or too few, or shows the wrong part of the image", stmt=f"_ti_calc_trim: {what_} == {spec_}")
+        ck.expect(n_feas >= 4, f"_ti_calc_trim: feasible paths found: {n_feas}")
+        ck.ob("R4", tcf, True, "", stmt=f"_ti_calc_trim: every result equals its interval specification on every feasible path")
+        ck.extra["calc_trim"] = {"paths": len(tpaths), "feasible": n_feas, "clauses_proved": n_proved}
+    except _L.NotLinear as ex_:
+        ck.expect(False, f"_ti_calc_trim is outside the linear fragment: {ex_}")
+
     # ---- R3 ----------------------------------------------------------------------------
     isz = next((s for s in ct.body if isinstance(s, ast.Assign) and norm(s.targets[0]) == "image_size"), None)
     ck.ob("R3", isz or ct, isz is not None and norm(isz.value) == "self._ti_image_size", f"content() must use the image size recorded with the canvas; found `{norm(isz.value) if isz else None}`", stmt="content: image_size = self._ti_image_size")
@@ -239,5 +281,9 @@ MUTANTS = [
     M("swap-centre-split", UW, "UrwidImageCanvas.content", "                    pad_left = pad // 2\n                    pad_right = pad - pad_left", "                    pad_right = pad // 2\n                    pad_left = pad - pad_right", {"R3"}),
     M("live-image-size", UW, "UrwidImageCanvas.content", "        image_size = self._ti_image_size\n", "        image_size = self.widget_info[0]._ti_image.rendered_size\n", {"R3"}),
     M("end-index-is-count", UW, "UrwidImageCanvas.content", "self._ti_lines[trim_top : -trim_bottom or None]", "self._ti_lines[trim_top:visible_rows]", {"R2"}, count=3),
+    M("far-padding-slip", UW, "UrwidImageCanvas._ti_calc_trim", "            new_pad_side1 -= trim_side2 - image_end\n", "            new_pad_side1 -= trim_side2\n", {"R4"}),
+    M("image-trim-off-by-one", UW, "UrwidImageCanvas._ti_calc_trim", "            trim_image_side2 = trim_side2 - pad_side2\n", "            trim_image_side2 = trim_side2 - pad_side2 + 1\n", {"R4"}),
+    M("boundary-strict", UW, "UrwidImageCanvas._ti_calc_trim", "        elif trim_side1 >= pad_side1:  # within the image", "        elif trim_side1 > pad_side1 + 1:  # within the image", {"R4"}),
+    M("twin-calc-trim-regroup", UW, "UrwidImageCanvas._ti_calc_trim", "            trim_image_side1 = trim_side1 - pad_side1\n", "            trim_image_side1 = -pad_side1 + trim_side1\n", twin=True),
     M("twin-rename", UW, "UrwidImage.rows", "n_rows", "nrows", twin=True, count=0),
 ]
